@@ -31,8 +31,8 @@ template <class T> static std::string gq(const glm::qua<T>& q) { T a[4] = {q.w, 
 template <class T> static std::string gv(const glm::vec<3, T>& v) { T a[3] = {v.x, v.y, v.z}; return astr(a, 3); }
 
 #define REG2(fn, name, q, t, rule) \
-	static void fn##_f(pbt::Ctx& c) { static const CaseAlign al(name "/float", name "/float[" C04_CFG "]"); al.apply(c); fn<float>(c); } PBT_RANDOM(name "/float[" C04_CFG "]", fn##_f, q, t, rule); \
-	static void fn##_d(pbt::Ctx& c) { static const CaseAlign al(name "/double", name "/double[" C04_CFG "]"); al.apply(c); fn<double>(c); } PBT_RANDOM(name "/double[" C04_CFG "]", fn##_d, q, t, rule)
+	static void fn##_f(pbt::Ctx& c) { static const CaseAlign al(name "/float", name "/float/" C04_CFG); al.apply(c); fn<float>(c); } PBT_RANDOM(name "/float/" C04_CFG, fn##_f, q, t, rule); \
+	static void fn##_d(pbt::Ctx& c) { static const CaseAlign al(name "/double", name "/double/" C04_CFG); al.apply(c); fn<double>(c); } PBT_RANDOM(name "/double/" C04_CFG, fn##_d, q, t, rule)
 
 // =====================================================================================================================
 // dual quaternions
@@ -146,10 +146,14 @@ template <class T> static void dualquat(pbt::Ctx& c) {
 		DQ B4 = glm::dualquat_cast(M2), C4(M2);
 		if (!bits_q(B4.real, D1.real) || !bits_q(B4.dual, D1.dual) || !bits_q(C4.real, D1.real) || !bits_q(C4.dual, D1.dual))
 			c.failk(key<T>("dualquat_cast(mat2x4)", "round-trip"), "dualquat_cast(mat2x4_cast(dq))=(%s,%s), dq=(%s,%s)", gq(B4.real).c_str(), gq(B4.dual).c_str(), gq(D1.real).c_str(), gq(D1.dual).c_str());
-		// the 2x4 matrix holds exactly the eight numbers of the two parts, real part in column 0
-		T got[8], have[8] = {D1.real.w, D1.real.x, D1.real.y, D1.real.z, D1.dual.w, D1.dual.x, D1.dual.y, D1.dual.z};
-		for (int i = 0; i < 2; ++i) for (int j = 0; j < 4; ++j) got[i * 4 + j] = M2[i][j];
-		for (int h = 0; h < 2; ++h) { T s0 = 0, s1 = 0; for (int j = 0; j < 4; ++j) { s0 += std::fabs(got[h * 4 + j]); s1 += std::fabs(have[h * 4 + j]); } if (!fp::same_value(s0, s1)) c.failk(key<T>("mat2x4_cast", "columns-hold-the-parts"), "column %d of mat2x4_cast does not hold the %s part", h, h ? "dual" : "real"); }
+		// the 2x4 matrix holds exactly the eight numbers of the two parts, real part in column 0 (the order inside a column is not documented)
+		for (int h = 0; h < 2; ++h) {
+			const glm::qua<T>& part = h ? D1.dual : D1.real;
+			T have[4] = {part.w, part.x, part.y, part.z}, got[4] = {M2[h][0], M2[h][1], M2[h][2], M2[h][3]};
+			bool used[4] = {false, false, false, false}, ok = true;
+			for (int i = 0; i < 4 && ok; ++i) { int f = -1; for (int j = 0; j < 4; ++j) if (!used[j] && fp::same_bits(got[i], have[j])) { f = j; break; } if (f < 0) ok = false; else used[f] = true; }
+			if (!ok) c.failk(key<T>("mat2x4_cast", "columns-hold-the-parts"), "column %d of mat2x4_cast is %s, the %s part is wxyz%s", h, astr(got, 4).c_str(), h ? "dual" : "real", astr(have, 4).c_str());
+		}
 	}
 	// (f) component-wise operators
 	{
@@ -174,7 +178,7 @@ template <class T> static void dualquat(pbt::Ctx& c) {
 		if ((e == D1) || !(e != D1)) c.failk(key<T>("dualquat==dualquat", "one-component-differs"), "dq == dq' although component %d differs by one ulp", k);
 	}
 }
-REG2(dualquat, "dual-quaternion", 300000, 20000000,
+REG2(dualquat, "dual-quaternion", 300000, 7500000,
      "two rigid transforms (unit quaternion of every class + translation 2^-6..2^6 / small ints / axis-aligned / zero) and a vec3; tdualquat(q,t) parts, dq*v against the long-double polynomial P(r) v + 2 vec(d r*) and against Rot(q) v + t, "
      "v*dq and inverse(dq) against the inverse transform, (dq1 dq2) v = dq1 (dq2 v) = reference composition, mat3x4_cast rows = [Rot | t], dualquat_cast(mat3x4) round trip (all four branches) and on the rounded exact matrix, mat2x4 round trip "
      "bit for bit, component-wise operators and ==/!= exactly; non-trivial = rotation not ~identity, translation non-zero, v not along the rotation axis");
@@ -200,8 +204,12 @@ template <class T> static void explog(pbt::Ctx& c) {
 	V3 ax = s > 0 ? vscale(qvec(rq), 1 / s) : V3{0, 0, 0};
 	if (s > 1e-3L * n) c.nontrivial();
 	glm::qua<T> Q = GQ(q);
-	const char* wcls = rq.w < -0.8775825618903728L * n ? "w<-cos(1/2)|q|" : (rq.w > 0.8775825618903728L * n ? "w>cos(1/2)|q|" : "|w|<=cos(1/2)|q|");
-	c.cls(rq.w < -0.8775825618903728L * n ? "pow/log: w < -cos(1/2)|q| (asin branch, half angle > pi/2)" : (rq.w > 0.8775825618903728L * n ? "pow/log: w > cos(1/2)|q| (asin branch)" : "pow/log: acos branch"));
+	// branch of pow(): asin for |w|/|q| > cos(1/2), decided in T; within 64 eps of the branch point the class of the asin side is reported
+	const R CH = 0.8775825618903727161162815826L, band = 64 * eps;
+	const int wk = rq.w < -(CH - band) * n ? 0 : (rq.w > (CH + band) * n ? 1 : 2);
+	const char* wcls = wk == 0 ? "w<-cos(1/2)|q|" : (wk == 1 ? "w>cos(1/2)|q|" : "|w|<=cos(1/2)|q|");
+	c.cls(wk == 0 ? "pow/log: w < -cos(1/2)|q| (asin branch, half angle > pi/2)" : (wk == 1 ? "pow/log: w > cos(1/2)|q| (asin branch)" : "pow/log: acos branch"));
+	if (rabs(rabs(rq.w) - CH * n) < 1e-3L * n) c.cls("pow: |w|/|q| within 1e-3 of the branch point cos(1/2)");
 	const bool tinyvec = s < (R)std::numeric_limits<T>::epsilon();
 	// ---- log
 	glm::qua<T> L = glm::log(Q);
@@ -261,13 +269,15 @@ template <class T> static void explog(pbt::Ctx& c) {
 			R e = qmaxdiff(qn_of(Pw), want) / (yzero ? 1 : mag);
 			// th is computed from asin/acos of a quotient with relative error ~3u: conditioning 1/|w| resp. 1/|u| at the branch point <= 2.1; amplified by |y|; plus |y ln|q|| u from pow()
 			R tol = 16 * eps * (1 + rabs((R)y) * (1 + th)) * (1 + rabs((R)y * logl(n)));
-			if (!within(c, "pow(q,y) err/tol", e, tol))
+			static const char* const PM[] = {"pow(q,y) err/tol [w < -cos(1/2)|q|]", "pow(q,y) err/tol [w > cos(1/2)|q|]", "pow(q,y) err/tol [acos branch]"};
+			static const char* const SM[] = {"sqrt(q)^2 vs q err/tol [w < -cos(1/2)|q|]", "sqrt(q)^2 vs q err/tol [w > cos(1/2)|q|]", "sqrt(q)^2 vs q err/tol [acos branch]"};
+			if (!within(c, PM[wk], e, tol))
 				c.failk(key<T>("pow", yzero ? "y~0" : "principal-power", wcls), "pow(wxyz%s, %s)=%s, |q|^y (cos y th, n sin y th)=%s (th=%.9Lg, err %.3Lg, tol %.3Lg)", astr(q, 4).c_str(), fstr(y).c_str(), gq(Pw).c_str(), qstr(want).c_str(), th, e, tol);
 			glm::qua<T> Sq = glm::sqrt(Q);
 			if (!(realq && rq.w < 0)) {
 				Qn s2 = qmul(qn_of(Sq), qn_of(Sq));
 				R e2 = qmaxdiff(s2, rq) / n;
-				if (!within(c, "sqrt(q)^2 vs q err/tol", e2, 32 * eps * (1 + th)))
+				if (!within(c, SM[wk], e2, 32 * eps * (1 + th)))
 					c.failk(key<T>("sqrt", "squares-to-q", wcls), "sqrt(wxyz%s)=%s, its square is %s", astr(q, 4).c_str(), gq(Sq).c_str(), qstr(s2).c_str());
 				if (qn_of(Sq).w < -32 * eps * sqrtl(n)) c.failk(key<T>("sqrt", "principal-root-w>=0", wcls), "sqrt(wxyz%s)=%s has a negative real part", astr(q, 4).c_str(), gq(Sq).c_str());
 			}
@@ -275,7 +285,7 @@ template <class T> static void explog(pbt::Ctx& c) {
 	}
 	(void)u;
 }
-REG2(explog, "exp-log-pow", 300000, 20000000,
+REG2(explog, "exp-log-pow", 300000, 7500000,
      "quaternions of every class, three quarters unit and one quarter scaled to |q| in 1/16..16, exponent y from {1,2,1/2,-1,3,-2,1/4,3/2,-1/2,0} or uniform [-3,3]; log q against (ln|q|, atan2(|xyz|,w) xyz/|xyz|) and the documented real-axis rule, "
      "exp of the pure logarithm against (cos|u|, u sin|u|/|u|) incl. |u| < eps, exp(log q) = q also for non-unit q, pow(q,y) against |q|^y (cos y th, n sin y th) for both angle branches and w < 0, sqrt(q)^2 = q with non-negative real part; "
      "non-trivial = |xyz| > 1e-3 |q|");
@@ -318,7 +328,7 @@ template <class T> static void lookat(pbt::Ctx& c) {
 	// default handedness: right-handed unless GLM_FORCE_LEFT_HANDED
 	if (!bits_q(glm::quatLookAt(D, UP), glm::quatLookAtRH(D, UP))) c.failk(key<T>("quatLookAt", "default-is-RH"), "quatLookAt differs from quatLookAtRH in a right-handed configuration");
 }
-REG2(lookat, "quat-look-at", 200000, 10000000,
+REG2(lookat, "quat-look-at", 200000, 5000000,
      "unit direction (coordinate axis exactly / within 1e-9..1e-2 / random) and an up vector ((0,1,0) or random of length 0.5..2, at least 0.05 rad from +-direction); quatLookAtRH/LH as rotations against the orthonormal basis "
      "(normalise(up x f), f x right, f) with f = -+direction, unit length, -z (RH) / +z (LH) mapped onto direction, quatLookAt = RH variant; conditioning 1/sin(angle(up,direction)); every case is non-trivial");
 
@@ -382,7 +392,7 @@ template <class T> static void storage(pbt::Ctx& c) {
 		if (gn != nn || gi != ni) c.failk(key<T>("isnan-isinf(quat)", "flag-count"), "wxyz%s: %d NaN flags (expected %d), %d inf flags (expected %d)", astr(s, 4).c_str(), gn, nn, gi, ni);
 	}
 }
-REG2(storage, "components-and-constructors", 200000, 10000000,
+REG2(storage, "components-and-constructors", 200000, 5000000,
      "two quaternions of arbitrary finite floats (specials, powers of two, raw bit patterns); operator[] and the raw memory must hold the components in the storage order of the build (x,y,z,w or w,x,y,z), writes through [] hit the same "
      "component, the (w,x,y,z) constructor, wxyz(), (s,vec3), copy/qualifier/precision conversions and assignment are independent of the storage order, lessThan/lessThanEqual/greaterThan/greaterThanEqual compare the i-th stored components, "
      "isnan/isinf raise one flag per NaN/inf component; non-trivial = four pairwise distinct components");
